@@ -68,6 +68,8 @@ func c06TreeOf(r *tr.Rng, tag int) map[string][]byte {
 	return t
 }
 
+var c06Obs int
+
 // c06Observe reads what list / latest / labels / download report, in rank form.
 func c06Observe(w *c06World, env *corekit.Env, newTree map[string][]byte, perFile uint) string {
 	rank := map[string]int{}
@@ -86,7 +88,10 @@ func c06Observe(w *c06World, env *corekit.Env, newTree map[string][]byte, perFil
 	var bs model.BundleDescriptors
 	err := corekit.Recover(func() error {
 		var e error
-		bs, e = core.ListBundles("r", env.Stores)
+		// the listing page size varies from one observation to the next (1, 2, 3, default): what is
+		// listed does not depend on it, whatever leftovers of interrupted uploads the pages hold
+		c06Obs++
+		bs, e = core.ListBundles("r", env.Stores, core.BatchSize([]int{1024, 1, 2, 3}[c06Obs%4]))
 		return e
 	})
 	if err != nil {
